@@ -101,7 +101,7 @@ pub fn gen_scalar(src: &mut Src) -> J {
         1 => J::Bool(false),
         2 => J::Bool(true),
         3 => J::Int(*src.pick(&[0, 1, 2, -1, 3, 5, 10, 100])),
-        4 => J::Float(*src.pick(&[1.0, 1.5, 0.5, -0.0, 2.0, 0.1, 1e2, -1.5])),
+        4 => J::Float(*src.pick(&[1.0, 1.5, 0.5, -0.0, 2.0, 0.1, 1e2, -1.5, 0.0])),
         5 => J::Str(src.pick(&["", "a", "b", "ab", "1", "A", "é", "𝄞", "abc", " "]).to_string()),
         _ => match src.below(7) {
             4 => J::Str(src.pick(&["x", "é", "𝄞"]).repeat(*src.pick(&[64usize, 255, 256, 257, 1000]))),
@@ -506,7 +506,9 @@ pub fn gen_segs<'a>(src: &mut Src, root: &'a J, start: Vec<Node<'a>>, cfg: &GenC
         1 => src.weighted(&[20, 80]),
         2 => src.weighted(&[10, 45, 45]),
         3 => src.weighted(&[5, 30, 40, 25]),
-        _ => src.weighted(&[4, 26, 35, 22, 13]).min(max),
+        4..=6 => src.weighted(&[4, 26, 35, 22, 13]).min(max),
+        // long chains (only asked for on deep documents)
+        _ => 1 + src.below(max),
     };
     let mut cur = start;
     let mut segs = vec![];
@@ -547,7 +549,10 @@ pub fn gen_query(src: &mut Src, root: &J, cfg: &GenCfg) -> Query {
         steps: vec![],
         v: root,
     };
-    let segs = gen_segs(src, root, vec![start], cfg, cfg.filter_depth, cfg.max_segs);
+    // on a deep document half of the queries are long chains that follow it down (tens of segments)
+    let depth = root.depth();
+    let max_segs = if depth >= 8 && src.bool() { depth.min(64).max(7) } else { cfg.max_segs };
+    let segs = gen_segs(src, root, vec![start], cfg, cfg.filter_depth, max_segs);
     let q = Query { abs: true, segs };
     // a query whose reference evaluation does not finish within the step budget (unions over
     // descendants over nested filters multiply) is replaced by the trivial query: neither the harness
